@@ -51,7 +51,37 @@ def translate(repo):
     prog.append("IFinallyRelease")
     items = [typed("send_prog", "list instr", coq_list(prog))]
     # the lock is a plain (non re-entrant) threading.Lock created per connection; the queue a per-connection list
-    init = ast.unparse(find_func(find_class(tree, "Connection"), "__init__"))
-    items.append(typed("sendlock_is_plain_lock", "bool", coq_bool("self._sendlock = Lock()" in init)))
-    items.append(typed("send_queue_is_fresh_list", "bool", coq_bool("self._send_queue = []" in init)))
+    cls = find_class(tree, "Connection")
+    initf = find_func(cls, "__init__")
+    assigns = {}
+    for st in ast.walk(initf):
+        if isinstance(st, ast.Assign) and len(st.targets) == 1 and u(st.targets[0]) in ("self._sendlock", "self._send_queue"):
+            assigns.setdefault(u(st.targets[0]), []).append((u(st.value), st in initf.body))
+    # exactly one unconditional assignment of each, of exactly this form; `Lock` must be threading's (rpyc.lib.compat re-exports it)
+    imports_lock = any(isinstance(n, ast.ImportFrom) and any(a.name == "Lock" and a.asname is None for a in n.names) and (n.module or "").endswith(("threading", "compat"))
+                       for n in tree.body)
+    items.append(typed("sendlock_is_plain_lock", "bool", coq_bool(assigns.get("self._sendlock") == [("Lock()", True)] and imports_lock)))
+    items.append(typed("send_queue_is_fresh_list", "bool", coq_bool(assigns.get("self._send_queue") == [("[]", True)])))
+    # nothing else in the class touches the queue, the lock or the channel's send: every outgoing byte goes through _send
+    def users(attr):
+        out = set()
+        for f in cls.body:
+            if isinstance(f, (ast.FunctionDef, ast.AsyncFunctionDef)):
+                if any(isinstance(n, ast.Attribute) and u(n) == attr for n in ast.walk(f)):
+                    out.add(f.name)
+        return out
+    items.append(typed("send_state_private_to_send", "bool", coq_bool(
+        users("self._send_queue") == {"__init__", "_send"} and users("self._sendlock") == {"__init__", "_send"}
+        and users("self._channel.send") == {"_send"})))
+    # ... and nothing outside the class reaches into them
+    import os as _os
+    outside = []
+    for root, _, files in _os.walk(_os.path.join(repo, "rpyc")):
+        for fn2 in files:
+            if fn2.endswith(".py"):
+                txt = open(_os.path.join(root, fn2)).read()
+                rel = _os.path.relpath(_os.path.join(root, fn2), repo)
+                if rel != SRC and ("_send_queue" in txt or "_sendlock" in txt):
+                    outside.append(rel)
+    items.append(typed("send_state_untouched_elsewhere", "bool", coq_bool(not outside)))
     return items
